@@ -14,7 +14,7 @@ PROPS = {
     "C01": dict(
         rule="case = pre-existing well-formed file(s) + 1-4 tests (prefix-related names) with 1-14 MatchSnapshot/MatchJSON/MatchYAML calls each; "
              "run 1 records with updating enabled, run 2 replays the same calls read-only (default / Update(false) / CI / UPDATE_SNAPS=clean) in a permuted test order, tests executed 1-3 times, optionally interleaved like parallel tests. "
-             "Pre-existing files may have CRLF line ends. Lines include BOM-prefixed lines and lines of buffer-boundary lengths (4095-4097, 65535-65537). cross_build_replay stage (black box): a real test program records with a normal or -trimpath build and the other build replays read-only (CI or not, -count 1-2): no failure, no write. "
+             "Pre-existing files may have CRLF line ends; the first file may also be addressed through a second Config that spells its directory differently; values include defined string types. Lines include BOM-prefixed lines and lines of buffer-boundary lengths (4095-4097, 65535-65537). cross_build_replay stage (black box): a real test program records with a normal or -trimpath build and the other build replays read-only (CI or not, -count 1-2): no failure, no write. "
              "non-trivial = the case contains a terminator/escape line, blank line, edge newline, empty body, header-looking line, invalid UTF-8, a line > 64 KiB, "
              ">= 10 calls in one test, >= 2 entry kinds in one file, a structured Go value, or pre-existing entries; distinct = distinct canonical JSON",
         assumptions=ASSUME_WB + ["carriage return at the end of a line (documented limitation) is excluded by construction and counted"],
@@ -40,7 +40,7 @@ PROPS = {
     "C03": dict(
         rule="case = history: 1-4 tests (prefix-related names, fixed call programs of 1-13 slots over 1-2 files) x 1-3 processes (mode: default / UPDATE_SNAPS=true / other / CI) "
              "x 1-4 executions per process (re-executions, partial executions) whose calls are interleaved like parallel tests, with failing calls (invalid JSON/YAML, failing matcher), "
-             "per-call Update options, pre-existing foreign entries and optionally a conversion of all files to CRLF line ends between two processes; after EVERY call the observed outcome is compared with a slot model and both files are re-parsed with the reference parser. "
+             "per-call Update options, pre-existing foreign entries and optionally a conversion of all files to CRLF line ends between two processes, single calls through a differently spelled directory; after EVERY call the observed outcome is compared with a slot model and both files are re-parsed with the reference parser. "
              "non-trivial = >= 2 tests and at least one of: prefix-related names, re-execution, interleaving, calls after a failing call, >= 10 calls, header-like body, per-call update option; "
              "distinct = distinct canonical JSON of the history. concurrent_slots stage: the C06 scenario/schedule generator on the controlled scheduler (2-4 tests sharing a file, 0-3 preemptions): "
              "every call addresses its own slot and no slot is lost or reverted by another test's concurrent write",
@@ -52,7 +52,7 @@ PROPS = {
     "C04": dict(
         rule="case = file recorded by a first process (1-3 tests, 1-12 calls each over all five APIs, plus foreign pre-existing entries), a second process with updating enabled "
              "(UPDATE_SNAPS=true, or Update(true) under any UPDATE_SNAPS) in which a generated subset of calls changes value (shorter, longer, empty, terminator/header-like, multi-line; same length; multi-KiB), "
-             "optionally after the recorded file was converted to CRLF line ends, "
+             "optionally after the recorded file was converted to CRLF line ends, optionally with other JSON options (indent/width/key sorting) in the update run than in the recording run (expected text computed with tidwall/pretty), "
              "then a read-only process. Checked per call: outcome, no write at all for unchanged values (mtime), only the addressed file written, entry list re-parsed with the reference parser "
              "(no residue, others byte-identical and in place), standalone files equal the new formatted value. non-trivial = a changed entry that is shorter, or >= 2 changed entries, "
              "or a changed non-last entry, or a standalone update; distinct = distinct canonical JSON",
@@ -63,7 +63,7 @@ PROPS = {
         rule="the full table CI{on,off} x Update option{unset,true,false} x UPDATE_SNAPS{unset,true,clean,other string} x Clean sort{on,off} x 5 entry points x entry state{missing,equal,different} "
              "x obsolete items{present,absent} = 1440 cells, enumerated completely; per cell the values and the 'other' string come from seeded generators. Each cell = a preparation run and one real process of a "
              "data-driven test program (real environment variables, real TestMain + snaps.Clean); the observed call outcome and the directory delta are compared with the statement's table written as a pure function. "
-             "The pre-existing snapshot is presented as the library wrote it, or (every 4th multi-entry cell) converted to CRLF line ends, or (every 3rd standalone cell with an existing file) as a symbolic link to the real file, or (cells without sort/obsolete items) with a second entry of an id that occurs already. "
+             "The pre-existing snapshot is presented as the library wrote it, or (every 4th multi-entry cell) converted to CRLF line ends, or (every 3rd standalone cell with an existing file) as a symbolic link to the real file, or (cells without sort/obsolete items) with a second entry of an id that occurs already; CI cells are recognised as CI through one of eight variables (CI, BUILD_NUMBER, RUN_ID, CI_NAME, CONTINUOUS_INTEGRATION, BUILD_ID, GITHUB_ACTIONS); every fifth cell runs with a foreign working directory. "
              "non-trivial = cells in which a create, rewrite, delete or sort is requested by the situation; every cell is distinct",
         assumptions=["black-box: scenario program compiled against /repo with `replace`, executed with an explicit minimal environment", "UPDATE_SNAPS and CI are read by the real init code of the process"],
         stages=[dict(name="table", engine="bb", run="^TestC05_", quick=1, thorough=1, shards_quick=8, shards_thorough=16)],
@@ -114,7 +114,7 @@ PROPS = {
         rule="case = as C07 but -run empty, with skip-protected tests (snaps.Skip/Skipf/SkipNow before any or after some calls, always in files shared with running tests), "
              "stale entries (absent tests, ordinals beyond the calls), stale multi-entry and standalone files, unrelated files, sub-directories (one named sub.snap), an unaddressed directory, -count 1-3, all modes x sort, "
              "directory names with glob metacharacters + siblings, -test.cpu lists, more addressed files (36-60) than free descriptors (24) during Clean, a read-only tree during Clean (file-system uid of the thread unprivileged; scenarios in which Clean has to write are excluded). "
-             "Oracle: reported set contains every stale item of the model and no addressed item; removed iff reported and deletion allowed; everything else byte- and mtime-identical. "
+             "Skip* never return (as with a real testing.T). Oracle: reported set contains every stale item of the model, no addressed item and no entry of a skip-protected test; removed iff reported and deletion allowed; everything else byte- and mtime-identical. "
              "non-trivial = at least one stale entry and one stale file present; distinct = distinct canonical JSON",
         assumptions=ASSUME_WB + ["skip-protected entries are exempt from the completeness demand (C08 judges them)"],
         stages=[dict(name="clean_reports", run="^TestC09_", quick=400, thorough=5000, shards_quick=4, shards_thorough=16)],
@@ -142,7 +142,7 @@ PROPS = {
         rule="case = JSON tree or block-YAML tree + 1-4 matchers (Any with default/custom placeholders of every JSON type, shorter and longer than the value; Type with the node's type; Custom returning a value) "
              "on existing paths chosen by walking the tree (keys needing gjson escapes, array elements, nested; the same path twice; a parent after its child and a child after its parent), input as string/[]byte/Go value, "
              "through MatchJSON / MatchStandaloneJSON / MatchYAML, SortKeys on and off; placeholders related to the replaced value (the value itself, a string spelling its JSON source, the quoted source); options chained or applied as statements; "
-             "keys `$`, `a:b`, `x/y`; the matcher VALUES are also reused after warm-up documents (a later listed path removed, the first path removed, empty container) and must store the same. Oracle: a reported error (trivial, counted in classes) or the stored document equals the model set(tree, path, placeholder) applied left to right "
+             "keys `$`, `a:b`, `x/y`; tables of records addressed through gjson `#` / `#(query)` and YAML `[*]` paths; YAML string placeholders that are not safe plain scalars; Custom callbacks that scrub their argument in place; the matcher VALUES are also reused after warm-up documents (a later listed path removed, the first path removed, empty container) and must store the same. Oracle: a reported error (trivial, counted in classes) or the stored document equals the model set(tree, path, placeholder) applied left to right "
              "as an ordered tree, Custom callbacks observe the model's current value, the caller's bytes are unchanged. non-trivial = >= 2 matchers, path depth >= 2, key needing escape, array element, or "
              "placeholder not longer than the value with []byte input; distinct = distinct canonical JSON",
         assumptions=ASSUME_WB + ["YAML output is parsed with goccy/go-yaml (ordered maps): the only YAML parser available offline", "a reported matcher error is a legal outcome"],
@@ -153,7 +153,7 @@ PROPS = {
         rule="case = document D (JSON tree or block YAML), 1-3 pairwise non-nested masked paths with matchers satisfiable on D (Any with plain/non-ASCII/quoted placeholders, Type[T] of the node's type, Custom returning a constant), "
              "D' = D with every masked value replaced by another value satisfying the same matcher (other scalars, null, long strings, containers), D'' = D or D' with one uncovered scalar changed; "
              "merged form: all masked paths in ONE Any with ErrOnMissingPath(false), interleaved with paths that do not exist and are textual prefixes / extensions of the existing ones (sibling keys sharing a prefix); keys `$`, `a:b`; "
-             "matcher values reused after a warm-up document; YAML input optionally a stream holding the document twice; changed numbers include the integer neighbour (last digit +-1, ids beyond 2^53). "
+             "matcher values reused after a warm-up document; tables masked through `#` / `#(query)` / `[*]` paths (empty arrays as masked values, records lacking the member); YAML input optionally a stream holding the document twice; changed numbers include the integer neighbour (last digit +-1, ids beyond 2^53). "
              "Oracle: stored(D) == stored(D') byte-for-byte, each replays read-only against the other's snapshot without writing, D'' reports exactly one error. "
              "non-trivial = at least one masked path and D' differs textually from D; the D'' class is counted separately; distinct = distinct canonical JSON",
         assumptions=ASSUME_WB + ["Type[any] is excluded (the placeholder records the dynamic type by design)", "cases on which a matcher reports an error on D or D' are counted as trivial"],
